@@ -70,6 +70,13 @@ pub struct BuilderCase {
     pub filter_bits: usize,
     /// duplicates: (index of the original key, position at which the copy is inserted in the final list)
     pub dups: Vec<(usize, usize)>,
+    /// C17 template only: enumerate "key i delivered twice" for every i (duplicate detection must not depend on where
+    /// the pair lands in the sorted shard)
+    #[serde(default)]
+    pub dup_sweep: bool,
+    /// a single placement of such a sweep (executed once, not treated as a template)
+    #[serde(default)]
+    pub single: bool,
     pub faults: Vec<LFault>,
     pub disk: Option<DiskCfg>,
     pub sched: Sched,
@@ -974,6 +981,8 @@ fn base_case(rng: &mut Rng, mode: &str, n: usize, iters: usize) -> BuilderCase {
         check_dups: rng.chance(1, 4),
         filter_bits: rng.urange(1, wb as usize),
         dups: vec![],
+        dup_sweep: false,
+        single: false,
         faults: vec![],
         disk: None,
         sched: draw_sched(rng, iters),
@@ -1275,6 +1284,27 @@ pub fn gen_c17(tier: Tier, run: u64, rng: &mut Rng) -> BuilderCase {
         c.dups.clear();
         c.key_source = Some(legal_key_source(rng));
     }
+    if (run % 97 == 40 || (!quick && run % 31 == 7)) && !big {
+        // duplicate sweep: a single shard of more than 1024 keys, every key in turn delivered twice
+        c.mode = "func".into();
+        c.combo = rng.pick(&["f/usize/bfv-usize/s2/shards", "f/u64/bfv-u64/s1/noshards", "f/usize/box-u32/s2/fullsigs"]).to_string();
+        c.n = rng.urange(1100, 2600);
+        c.key_kind = "scatter".into();
+        c.val_kind = rng.pick(&["identity", "random", "zero"]).to_string();
+        c.check_dups = true;
+        c.dups.clear();
+        c.offline = false;
+        c.disk = None;
+        c.key_source = None;
+        c.hint = Some(c.n);
+        c.hint_kind = "exact".into();
+        c.threads = *rng.pick(&[1usize, 2, 4]);
+        c.dup_sweep = true;
+        c.eps = None;
+        c.low_mem = None;
+        c.sched = draw_sched(rng, 1);
+        c.val_width = c.val_width.min(combo_word_bits(&c.combo));
+    }
     c
 }
 
@@ -1513,7 +1543,7 @@ impl World for BuilderWorld {
     fn execute(prop: &str, case: &BuilderCase) -> Outcome {
         let mut out = Outcome::default();
         out.nontrivial = case.n > 0;
-        if prop == "C17" && case.faults.is_empty() && !case.disk.as_ref().map(|d| d.has_hard()).unwrap_or(false) && !case.key_source.as_ref().map(|k| k.has_hard()).unwrap_or(false) {
+        if prop == "C17" && !case.single && case.faults.is_empty() && !case.disk.as_ref().map(|d| d.has_hard()).unwrap_or(false) && !case.key_source.as_ref().map(|k| k.has_hard()).unwrap_or(false) {
             // template: fault-free reference run first, then every single-fault placement
             let obs = run_scheduled(case, &mut out);
             let Some(o) = obs.first() else {
@@ -1525,10 +1555,25 @@ impl World for BuilderWorld {
             }
             let total = (case.n + case.dups.len()) as u64;
             let d = o.disk.clone().unwrap_or_default();
-            let placements = c17_placements(case, o.key_passes, total, o.rewinds.div_ceil(2).max(o.key_passes.saturating_sub(1)), d.bytes_written, d.bytes_read);
+            let mut placements = c17_placements(case, o.key_passes, total, o.rewinds.div_ceil(2).max(o.key_passes.saturating_sub(1)), d.bytes_written, d.bytes_read);
+            if case.dup_sweep {
+                // every key in turn delivered twice (same value): the duplicate must be reported wherever the pair
+                // lands in the sorted shard of whichever attempt
+                placements = (0..case.n)
+                    .map(|i| {
+                        let mut c = case.clone();
+                        c.dup_sweep = false;
+                        c.single = true;
+                        c.check_dups = true;
+                        c.dups = vec![(i, case.n)];
+                        c
+                    })
+                    .collect();
+                out.probe("c17.dup_sweep_templates", 1);
+            }
             // a reference run with hundreds of natural retries makes every placement that expensive: such
             // templates are thinned to about 150 placements (recorded in the evidence)
-            let placements: Vec<BuilderCase> = if o.key_passes > 40 && placements.len() > 150 {
+            let placements: Vec<BuilderCase> = if !case.dup_sweep && o.key_passes > 40 && placements.len() > 150 {
                 out.probe("c17.thinned_templates", 1);
                 let k = placements.len().div_ceil(150);
                 placements.into_iter().step_by(k).collect()
@@ -1556,6 +1601,7 @@ impl World for BuilderWorld {
                     let fk = p.faults.first().map(|f| format!("{}.{}.p{}", f.source, f.kind, f.pass.min(4))).unwrap_or_else(|| {
                         match &p.key_source {
                             Some(k) if k.has_hard() => format!("keysource.{}.{}", k.kind, if k.plan.truncate_at.is_some() { "truncated" } else if k.plan.fail_seek.is_some() { "seek" } else { "read_error" }),
+                            _ if p.single => "dup_sweep".into(),
                             _ => "disk".into(),
                         }
                     });
